@@ -47,8 +47,9 @@ CLAIMS["C09"] = (
     "parsed source: (NORM) buffer time bounds, gap boundaries, datetime arguments of the private "
     "slot-arithmetic methods and the operands of the emptiness guard are on the slot grid; (VALID) "
     "update() rejects too-old samples before any mutation, window() clamps, checks emptiness and "
-    "fills gaps before returning, MovingWindow.at range-checks both ends before every buffer "
-    "read. It does NOT decide the consistency of the incrementally maintained gap list / "
+    "fills gaps before returning, MovingWindow.at range-checks both ends (exact forms) before "
+    "every buffer read; (GAP) every gap recorded by update() starts no later than the first "
+    "unwritten slot and _fill_gaps writes only inside [0, len(window)]. It does NOT decide the consistency of the incrementally maintained gap list / "
     "count_valid with the data over all histories (an inductive data-structure invariant).",
     "Trusted: aligned ± k·period is aligned; the qualifier rules in sa/props/c09.py; statement-"
     "granular CFG.",
@@ -256,6 +257,23 @@ CLAIMS["C16"] = (
     "Trusted: the frozen atom table binding facts to conditions and the frozen operational-state "
     "sets (sa/props/c16.py); logging does not raise.",
     "DESIGN.md §2 C16")
+
+CLAIMS["C18"] = (
+    "polynomial normal forms of the loop-body accumulations (weighted-mean pattern, shared "
+    "weight, homogeneity degree, coefficient sign), clamp idiom, guard-dominance, sibling rules",
+    "Decides on the parsed source: the SoC accumulators are Σ w·s and Σ w with the shared weight w "
+    "= capacity·(upper − lower) and s = (soc − lower)/(upper − lower)·100 clamped per battery to "
+    "[0,100]; capacity is Σ w/100 with the same weight; numerator and denominator are homogeneous "
+    "of degree 1 in capacity (scale invariance), s is non-decreasing in soc on both branches, the "
+    "mean is not computed for a zero total; only working batteries are iterated, absent or "
+    "incomplete batteries are skipped before any accumulator / sentinel update and the result is "
+    "None iff none qualified; NaN metrics are dropped by the fetcher; the working set is reported ∩ "
+    "calculator batteries at both sites and metrics of batteries that stop working are evicted "
+    "before the set is replaced. Range and monotonicity follow from these shapes under capacity >= "
+    "0 and lower <= upper.",
+    "Trusted: the quantifier's assumptions (non-negative weights); exact textual forms of the clamp "
+    "idioms enumerated in sa/props/c18.py.",
+    "DESIGN.md §2 C18")
 
 PENDING_REASON = ("no static check is registered for this property yet in this revision of the "
                   "machinery (planned rules are in DESIGN.md §2); nothing is claimed for it")
